@@ -7,7 +7,10 @@ correspondence: (a) the static _extract_rc of the real dsh.c on generated lines,
                 execcmd.c on real children, (d) the scratch-built pdsh binary with -R exec and a helper command,
                 (k) -k: which statement ends the run and what has become of the siblings (transport event log / start and
                 term traces of real commands) vs the transition system Dsh/ExitKill.lean, (m) a real in-band transport
-                module next to exec in one run, (r) one real command line per refusal path of Dsh/ExitRefuse.lean;
+                module next to exec in one run, (r) one real command line per refusal path of Dsh/ExitRefuse.lean,
+                (s) the REAL rsh module (xrcmd.c) against a scripted rsh server that sends the handshake status byte and the
+                marker line in one write / apart, or denies (a failure without any return code) (vlib/exitrsh.py),
+                (h) the real binary started with SIGCHLD inherited as ignored (vlib/exitchld.py, Dsh/ExitChld.lean);
                 each vs `pdshmodel exit model <variant>`; the errx / exit call sites of opt.c and main.c are enumerated
                 by a generated probe (harness/consts/exitsites.c) and tied to the model by theorems
 oracle:         ExitSpec.admissible (`pdshmodel exit spec`) on the real process exit status of (b) and (d)
@@ -18,7 +21,7 @@ import os
 import re
 import subprocess
 
-from vlib import exitkill, exitmixed, exitrefuse
+from vlib import exitchld, exitkill, exitmixed, exitrefuse, exitrsh
 from vlib.common import HARNESS, LEAN_DIR, REPO, VERIF, hexs
 from vlib.seqrun import run_batch
 
@@ -162,12 +165,13 @@ def systematic_canceled():
 def systematic_timeouts():
     """-u 1, every kind of overdue command: idle (the watchdog's SIGALRM interrupts the worker) or chatty (the worker
     notices the expiry itself at the top of its poll loop) x dies on TERM / traps TERM and exits 0 / 255, in first and
-    last position, under -S; plus -k and plain"""
+    last position, under -S and under -S -k (a failure WITHOUT a return code must still end a -S -k run non-zero); plus -k and plain"""
     out = []
     i = 0
     for kind in ("idle", "chatty"):
         for end in ("d", ("e", 0), ("e", 255)):
-            for S, k in ((1, 0),) + (((0, 1), (0, 0)) if end == "d" else ()):
+            # -S -k: a target that failed WITHOUT any return code (timed out, the command leaving with 0 on TERM) ends the run with 1
+            for S, k in ((1, 0), (1, 1)) + (((0, 1), (0, 0)) if end == "d" else ()):
                 hosts = [mk_host("exec", ("exited", 0)), mk_host("exec", ("exited", 0))]
                 hosts[i % 2] = mk_host("exec", ("to", 0), tmo={"kind": kind, "end": end})
                 i += 1
@@ -192,6 +196,10 @@ def systematic_cli():
                     "hosts": [ex(("exited", 0)), ex(("to", 0), tmo={"kind": kind, "end": end})]})
     out.append({"S": 1, "k": 0, "fanout": 32, "cmdtmo": 1,
                 "hosts": [ex(("exited", 255)), ex(("to", 0), tmo={"kind": "chatty", "end": "d"})]})
+    # -S -k x a target that fails without any return code: the overdue command traps TERM and leaves with 0 / dies
+    for kind, end in (("idle", ("e", 0)), ("chatty", ("e", 0)), ("idle", "d")):
+        out.append({"S": 1, "k": 1, "fanout": 32, "cmdtmo": 1,
+                    "hosts": [ex(("exited", 0)), ex(("to", 0), tmo={"kind": kind, "end": end})]})
     return out
 
 
@@ -560,6 +568,9 @@ def run(ctx):
                    "as per-target prefix, one line longer than the relay buffer before the marker; (r) one or more real command "
                    "lines per refusal path of the model (environment, option values, user names, usage, host words, target file, "
                    "transport, module loading, program name, opt_verify, dsh()'s prologue) with a trace file for \"nothing contacted\"; "
+                   "(s) the real rsh module against a scripted rsh server: {-S, -k, both, neither} x {status byte and marker line in ONE "
+                   "write, 0.4 s apart} x {success, code 3, output then code 255}, a denied target (fails without any return code) "
+                   "alone / first / last; (h) started with SIGCHLD inherited as ignored: {-S, -k, both} x {code 3, signal 9}; "
                    "non-trivial = at least one target does not simply succeed (non-zero code, signal, failure, marker with "
                    "preceding text or later lines); distinct = distinct case text"}
     dist = {"xrc": 0, "xrc_with_marker": 0, "xd": 0, "dsh_domain": 0, "dsh_raw": 0, "cli": 0, "cli_refused": 0,
@@ -815,6 +826,11 @@ def run(ctx):
             # a REAL in-band transport (harness/exit_inband_mod.c) next to exec, both as default and as per-target prefix;
             # a line longer than the relay buffer in front of the marker line (vlib/exitmixed.py)
             exitmixed.run(ctx, repo, pdsh, helper, bits, magic, dist, cov, distinct, report_bad)
+            # the REAL rsh module (xrcmd.c) against a scripted rsh server: the status byte of the handshake and the marker line
+            # in ONE write / apart; targets that fail without any return code under every flag combination (vlib/exitrsh.py)
+            exitrsh.run(ctx, pdsh, bits, magic, dist, cov, distinct, report_bad)
+            # started with SIGCHLD inherited as IGNORED: is the status of the children still seen? (vlib/exitchld.py)
+            exitchld.run(ctx, pdsh, helper, bits, dist, cov, distinct)
             # every refusal path of main / opt.c / module loading / dsh()'s prologue (vlib/exitrefuse.py)
             exitrefuse.run(ctx, repo, bits, dist, cov, distinct)
             # -k through the real binary: the siblings leave start / term traces
@@ -866,7 +882,7 @@ def run(ctx):
                       "Gen/Dsh.lean regenerated from /repo (RC_MAGIC, RC_FAILED)",
                       "harness/exit_harness.c (scripted rcmd layer with event log), exit_exec.c, exit_helper.c, exit_inband_mod.c "
                       "(in-band transport module), harness/consts/exitsites.c (call-site probe: Gen/Exitsites.lean), "
-                      "vlib/exitkill.py exitmixed.py exitrefuse.py, gcc, ASan/UBSan"],
+                      "vlib/exitkill.py exitmixed.py exitrefuse.py exitrsh.py (scripted rsh server) exitchld.py, gcc, ASan/UBSan"],
         checker_cmd="lake build PdshVerif.Props.C08 && #print axioms on every theorem of Props/C08.lean")
 
 
@@ -913,6 +929,10 @@ def replay(ctx, cov, exe, repo, magic, bits, env):
         return run(ctx)
     if "mixed_case" in case:
         exitmixed.run(ctx, repo, pdsh, helper, bits, magic, {}, cov, set(), report_bad, only=exitmixed.case_from_json(case["mixed_case"]))
+    elif "chld_case" in case:
+        exitchld.run(ctx, pdsh, helper, bits, {}, cov, set(), only=case["chld_case"])
+    elif "rsh_case" in case:
+        exitrsh.run(ctx, pdsh, bits, magic, {}, cov, set(), report_bad, only=case["rsh_case"])
     elif "refusal_label" in case:
         exitrefuse.run(ctx, repo, bits, {}, cov, set(), only=case["refusal_label"])
     elif "k_scn" in case:
